@@ -97,7 +97,44 @@ type Check struct {
 
 var checks = map[string]*Check{}
 
-func register(c *Check) { checks[c.Prop] = c }
+func register(c *Check) {
+	// Every check that explores cluster scenarios also runs EVERY registered scenario once on its default schedule
+	// with its own oracle: a situation scripted for one property (a restore with calls in flight, a snapshot taken
+	// while the FSM is busy, ...) is thereby seen by the oracles of all the others.
+	inner := c.Units
+	c.Units = func(tier string) []Unit {
+		us := inner(tier)
+		for _, u := range us {
+			if u.Sc != nil {
+				return append(us, Unit{Name: "every-scenario@0", Enum: enumEveryScenario, NoSched: true})
+			}
+		}
+		return us
+	}
+	checks[c.Prop] = c
+}
+
+// enumEveryScenario: the default schedule (0 deviations) of every registered scenario, judged by ctx.Prop's oracle.
+func enumEveryScenario(ctx *CheckCtx, shard, of int) *Stats {
+	st := newStats()
+	for i, name := range scenarioNames() {
+		if of > 1 && i%of != shard {
+			continue
+		}
+		if !ctx.Deadline.IsZero() && time.Now().After(ctx.Deadline) {
+			st.Capped = true
+			break
+		}
+		e := &Explorer{sc: scenarioByName(name), prop: ctx.Prop, bound: 0, stats: newStats(), maxViol: 3, replayEvery: 1, known: ctx.Known, deadline: ctx.Deadline}
+		e.explore(nil, 0, 0)
+		st.merge(e.stats)
+		if st.Internal != "" {
+			st.Internal = name + ": " + st.Internal
+			break
+		}
+	}
+	return st
+}
 
 func main() {
 	debug.SetGCPercent(400)
